@@ -51,8 +51,11 @@ class TheCheck(Check):
     def ac(self, table, flags, defcb, nodes, tag_ws=0.0):
         doc, nlines = G.render_ac(self.rng, nodes, tag_ws)
         op = G.ac_op(flags, defcb, doc, table)
-        if self.rng.random() < 0.12:
+        r_ = self.rng.random()
+        if r_ < 0.12:
             op = "acpipe" + op[2:]       # the same bytes through a pipe (not seekable): the same reading
+        elif r_ < 0.30:
+            op = "acre" + op[2:]         # a parser object that has parsed (the same path) before: the same reading
         self.expect[op] = ("ac", G.ac_expected(table, flags, defcb, nodes, nlines, G.harness_cb_refuses))
         return op
 
